@@ -319,6 +319,32 @@ func registerIntrinsics(e *Engine) {
 		return nil
 	})
 
+	// ----- unique.Make: canonical handle per distinct (concrete) value -----
+	r("unique.Make", func(p *Path, _ *frame, fn *ssa.Function, args []Value, _ ssa.CallInstruction) Value {
+		type ent struct {
+			typ string
+			val Value
+			obj *Obj
+		}
+		vt := fn.Signature.Params().At(0).Type()
+		tab, _ := p.extra["unique"].([]ent)
+		for _, e := range tab {
+			if e.typ != vt.String() {
+				continue
+			}
+			eq := p.valEq(e.val, args[0])
+			if eq.IsTrue() {
+				return &StructV{F: []Value{&Ptr{Obj: e.obj}}}
+			}
+			if !eq.IsFalse() {
+				p.unsupported("unique.Make of a symbolic value")
+			}
+		}
+		o := p.newObj(vt, copyVal(args[0]), "unique")
+		p.extra["unique"] = append(tab, ent{vt.String(), copyVal(args[0]), o})
+		return &StructV{F: []Value{&Ptr{Obj: o}}}
+	})
+
 	// ----- time.Now: an arbitrary instant (wall clock reading without monotonic part) -----
 	r("time.Now", func(p *Path, _ *frame, fn *ssa.Function, _ []Value, _ ssa.CallInstruction) Value {
 		p.stubs["time.Now returns an arbitrary instant"] = true
